@@ -17,7 +17,7 @@ import six
 from .datatypes import Quantity, Coordinate, Ref, Bin, Uri, \
     MARKER, NA, REMOVE, XStr
 from .grid import Grid
-from .version import LATEST_VER, Version, VER_3_0
+from .version import LATEST_VER, Version, VER_3_0, pre_3_0
 from .zoneinfo import timezone
 
 URI_META = re.compile(r'\\([:/\?#\[\]@\\&=;"$`])')
@@ -90,14 +90,14 @@ def parse_embedded_scalar(scalar, version=LATEST_VER):
         return None
     elif isinstance(scalar, list):
         # We support this only in version 3.0 and up.
-        if version < VER_3_0:
+        if pre_3_0(version):
             raise ValueError('Lists are not supported in Haystack version %s' \
                              % version)
         return list(map(functools.partial(parse_embedded_scalar,
                                           version=version), scalar))
     elif isinstance(scalar, dict):
         # We support this only in version 3.0 and up.
-        if version < VER_3_0:
+        if pre_3_0(version):
             raise ValueError('Dicts are not supported in Haystack version %s' \
                              % version)
         if sys.version_info[0] < 3 and {"meta", "cols", "rows"} <= scalar.viewkeys() \
